@@ -7,7 +7,9 @@ if [ -n "$(git status --porcelain --untracked-files=no)" ]; then echo "repo not 
 git apply "$P" 2>/dev/null || git apply -3 "$P" 2>/dev/null || patch -p1 -s < "$P" || { echo "APPLY-FAILED"; git checkout -q -- .; exit 9; }
 git reset -q 2>/dev/null
 cd /verif
+cp -f evidence/$PROP.json /tmp/mutrun.$$.evidence 2>/dev/null   # (the evidence file of the unchanged tree is put back afterwards)
 ./check $PROP --tier quick --budget $B > /tmp/mutrun.$$.out 2>&1; rc=$?
+[ -f /tmp/mutrun.$$.evidence ] && mv -f /tmp/mutrun.$$.evidence evidence/$PROP.json
 grep -E "^VIOLATION|^  oracle|^KNOWN|MACHINERY|quick:" /tmp/mutrun.$$.out | cut -c1-260
 echo "check exit=$rc"
 git -C /repo checkout -q -- .
